@@ -221,6 +221,25 @@ class C10(MsgProp):
     def project(self, op, ans):
         return proj_keys(ans, lambda k, kind, v: base(k) in F32)
 
+    def judge(self, rep, cfg, label, ops, impl, model):
+        # presence/absence of a value is C11's subject: compare the scaled values where both sides report one
+        for op, a, m in zip(ops, impl, model):
+            rep.evaluations += 1
+            rep.count(label)
+            pa, pm = parse_answer(a), parse_answer(m)
+            if pa["cls"] != "ok" or pm["cls"] != "ok":
+                if pa["cls"] == "panic":
+                    rep.violation("C10: implementation panics", {"cfg": cfg, "ops": [op], "impl": a})
+                continue
+            rep.nontrivial.add(op)
+            for k, v in pa["kv"].items():
+                if base(k) in F32 and v != "none" and pm["kv"].get(k, "none") != "none" and pm["kv"][k] != v:
+                    rep.violation(f"C10: {k} reported {v}, the model's exact (raw, scale) pair gives {pm['kv'][k]}",
+                                  {"cfg": cfg, "ops": [op], "impl": a, "model": m})
+            self.extra_judge(rep, cfg, op, a, m)
+            if rep.evaluations % 997 == 0:
+                rep.sample({"op": op, "impl": a[:300]})
+
     def cases(self, tier, rng):
         yield from coord_cases(rng, tier)
 
